@@ -260,6 +260,36 @@ def run_surrogate(ctx, res, seed):
                                          'steps': len(system.train_history)})
 
 
+def run_nan_sibling(ctx, res, seed):
+    """a component that returns NaN for some samples next to a SIBLING that does not depend on it: whatever the listing, the
+    sibling's output must be the composition of the components it depends on (known finding F15: it is not)"""
+    rng = random.Random(seed)
+    thr = rng.choice([0.8, 1.0, 1.2])
+
+    def mk():
+        x = Variable('x', domain=(0.0, 1.0)); y0 = Variable('y0', domain=(0.0, 2.0))
+        return {'A': Component(lambda inputs: {'y0': inputs['x'] * 2.0}, inputs=[x], outputs=[y0], name='A', vectorized=True),
+                'B': Component(lambda inputs: {'yb': np.log(inputs['y0'] - thr)}, inputs=[y0], outputs=[Variable('yb')], name='B',
+                               vectorized=True),      # undefined (NaN) for y0 <= thr
+                'C': Component(lambda inputs: {'yc': inputs['y0'] + 1.0}, inputs=[y0], outputs=[Variable('yc')], name='C',
+                               vectorized=True)}
+    xs = np.array([0.05, 0.3, 0.55, 0.7, 0.95])
+    expected_yc = xs * 2.0 + 1.0
+    import itertools as _it
+    for order in _it.permutations('ABC'):
+        comps = mk()
+        with np.errstate(all='ignore'):
+            y = System(*[comps[n] for n in order], name='nansib').predict({'x': xs}, use_model='best')
+        yc = np.asarray(y['yc'], dtype=float)
+        if not np.allclose(yc, expected_yc, rtol=1e-12, equal_nan=False):
+            res.failures.append({'kind': 'output-of-an-independent-sibling-depends-on-the-listing-when-another-component-returns-NaN',
+                                 'signature': 'nan-sibling-mask',
+                                 'input': {'nan_sibling': seed, 'listing': list(order), 'threshold': thr},
+                                 'observed': yc.tolist(), 'expected': expected_yc.tolist()})
+        res.hit('nan-sibling-listing')
+    res.case(('nan-sibling', seed), True, {'nan_sibling': seed, 'threshold': thr})
+
+
 def run(ctx: core.Ctx, only=None) -> core.Result:
     res = core.Result()
     res.rule = ('(A) random DAGs (2-6 components, chains/fans/diamonds/shared inputs, 1-2 outputs each) of small-integer '
@@ -273,9 +303,13 @@ def run(ctx: core.Ctx, only=None) -> core.Result:
     else:
         items = core.corpus_cases('C07') + [{'dag': gen_dag(ctx.rng)} for _ in range(ctx.scale(25, 300))] + \
             [{'seed': 2 * ctx.rng.randrange(10 ** 6) + k % 2} for k in range(ctx.scale(2, 12))]
+    if only is None:
+        items = items + [{'nan_sibling': ctx.rng.randrange(10 ** 6)}]
     for it in items:
         with core.guarded(res, 'scenario-raised', it):
-            if 'dag' in it:
+            if 'nan_sibling' in it:
+                run_nan_sibling(ctx, res, it['nan_sibling'])
+            elif 'dag' in it:
                 run_exact(ctx, res, it['dag'], lines, post)
             else:
                 run_surrogate(ctx, res, it['seed'])
@@ -292,6 +326,21 @@ def run(ctx: core.Ctx, only=None) -> core.Result:
         if model != got:
             res.disagreements.append({'name': 'Amisc.predictFF vs System.predict(use_model)',
                                       'input': {'dag': dag, 'listing': perm, 'x': xs}, 'impl': got, 'model': model})
+    # known finding F15
+    kf = {k['id'] for k in core.known_findings() if k.get('status') == 'open' and k['property'] == 'C07'}
+    if 'F15' in kf:
+        kept = []
+        for f_ in res.failures:
+            if f_.get('signature') == 'nan-sibling-mask':
+                res.known_hits['F15'] = res.known_hits.get('F15', 0) + 1
+            else:
+                kept.append(f_)
+        res.failures = kept
+        if res.known_hits.get('F15'):
+            res.extra.setdefault('known_lines', []).append(
+                ('F15', 'nan-sibling-mask: when a component returns NaN for some samples, System.predict drops those samples '
+                        'for every component evaluated LATER in the topological order — also for siblings that do not depend '
+                        'on it — so their outputs depend on the order in which the components were listed'))
     return res
 
 
